@@ -165,3 +165,29 @@ def storage(o):
         return None
     cands = [v for v in cands if len(v) == n]
     return cands[0] if cands else None
+
+
+def row_class():
+    """the class of a table's row views (`serif.table.Row`, wherever it lives now)"""
+    try:
+        from serif.table import Row
+        return Row
+    except ImportError:
+        import warnings
+        from serif import Table
+        with warnings.catch_warnings():
+            warnings.simplefilter("ignore")
+            return type(next(iter(Table({"a": [1]}))))
+
+
+def slice_length_fn():
+    """`typeutils.slice_length`, or (renamed / moved) the number of elements vector slicing selects"""
+    try:
+        from serif.typeutils import slice_length
+        return slice_length
+    except ImportError:
+        from serif import Vector
+
+        def slice_length(sl, n):
+            return len(Vector(list(range(n)))[sl] if n else Vector([0])[1:][sl])
+        return slice_length
